@@ -27,7 +27,7 @@ VARIABLES owner,    \* "pool" | "reader" | "switch" | "router" | "handler" | "li
           act
 vars == <<owner, releases, result, cls, act>>
 
-Stages == {"parse", "link-pre", "link-mid", "link-post", "sealed", "kx"}
+Stages == {"parse", "link-pre", "link-mid", "link-post", "sealed", "kx", "sched"}
 Kinds == [ parse |-> {"random", "truncated", "bit", "lengths", "tiers"},
            linkpre |-> {"len0to3", "len4to11", "len12to27", "lenbeyond", "lenmax", "garbage", "mutated"},
            linkmid |-> {"mutated2", "mutated3", "lengths", "garbage"},
@@ -36,9 +36,10 @@ Kinds == [ parse |-> {"random", "truncated", "bit", "lengths", "tiers"},
                        "pinghdr-identity", "body-random", "body-truncated", "body-wrongtype", "body-deep", "body-hugelen", "body-crossfed",
                        "hopchain-truncated", "hopchain-deep", "hopchain-random", "hopchain-oversized", "traffic-short", "traffic-version",
                        "traffic-mismatch", "traffic-proto", "traffic-nokeys", "forward-unknown", "forward-ttl", "forward-noroute", "appendix-stray", "clone-sizes"},
-           kx |-> {"cross-handshake"} ]
+           kx |-> {"cross-handshake"},
+           sched |-> {"pong-retry"} ]   \* responses that race the retry of their request (PingPong.tla)
 KindsOf(s) == CASE s = "parse" -> Kinds.parse [] s = "link-pre" -> Kinds.linkpre [] s = "link-mid" -> Kinds.linkmid
-                [] s = "link-post" -> Kinds.linkpost [] s = "sealed" -> Kinds.sealed [] OTHER -> Kinds.kx
+                [] s = "link-post" -> Kinds.linkpost [] s = "sealed" -> Kinds.sealed [] s = "sched" -> Kinds.sched [] OTHER -> Kinds.kx
 
 Init ==
   /\ owner = "pool" /\ releases = 0 /\ result = "none"
